@@ -89,6 +89,43 @@ def run(F, R, tier):
         after = seq[seq.index("leave_scope") + 1:] if "leave_scope" in seq else ["?"]
         R.ob("filters-compiled-apart", "filter code is emitted between enter_scope and leave_scope and stored in filters / filter_end",
              ok and not [e for e in after if e.startswith(("emit", "p"))], "events %s" % seq, F.loc(cf))
+    # ---- (a2) the filter's code: one result value; the pattern's value without an action, `false` after an action ----------
+    from .lib import e5run
+    from .lib.vmeffects import Lin
+    res = e5run.analyse(F, R)
+    if not res.get("ok"):
+        R.ob("filter-template", "the emission verifier could interpret compile_filter_statement", False, "unsupported construct: %s" % res.get("unsupported"))
+    else:
+        seen = set()
+        for v in res["viol"]:
+            rule, key, detail, line, facts = v
+            if "statement[Filter]" not in key or (rule, key) in seen:
+                continue
+            if rule == "filter-result" and facts.get("v:f.pattern") in ("None", "End") and facts.get("some:f.action") is False:
+                continue   # excluded by the parser: a filter statement has a pattern or an action (C07 parser-contract rule)
+            seen.add((rule, key))
+            R.ob(rule, key, False, detail, "src/compiler/mod.rs:%s" % line if line else "")
+        r = res["stmt"].get(("Filter", "main"))
+        if R.anchor("Statement::Filter arm", r):
+            got = {}
+            for t, st in r["ends"]:
+                if t != "ok":
+                    continue
+                pat, act = st.facts.get("v:f.pattern"), st.facts.get("some:f.action")
+                if pat in ("None", "End") and act is False:
+                    continue
+                got.setdefault((pat, act), set()).add((tuple(o[1] for o in st.order), tuple(e[0] for e in st.emits)))
+            want = {("Expr", False): {(("G",), ("JumpIfFalseNoPop",))},
+                    ("Expr", True): {(("G", "block"), ("JumpIfFalseNoPop", "Pop", "False"))},
+                    ("None", True): {(("block",), ("False",))},
+                    ("End", True): {(("block",), ("False",))}}
+            texts = {("Expr", False): "pattern without action: the pattern's value is the filter's result",
+                     ("Expr", True): "pattern with action: a falsey pattern value is the result; otherwise it is popped, the action runs, the result is false",
+                     ("None", True): "action without pattern: the action runs, the result is false (the caller writes nothing)",
+                     ("End", True): "end filter: the action runs, the result is false"}
+            for k, w in want.items():
+                R.ob("filter-template", texts[k], got.get(k) == w, "compiled as %s" % sorted(got.get(k, [])), F.loc(cf) if cf else "")
+            R.ob("filter-template", "no other pattern/action combination is compiled", set(got) == set(want), str(sorted(got, key=repr)))
     # ---- (b) per-packet typestate --------------------------------------------------------------------------------------------
     b = H.body_of(rf)
     interesting = {"next_packet", "set_curr_pkt", "update_builtin_var", "push_filter_frame", "run", "pop_filter_frame", "write_all",
